@@ -114,16 +114,31 @@ func main() {
 	}
 	staleDiscard := one(setDiscards(stale[0]), "goInsert stale loop")
 	insertDiscard := one(setDiscards(stale[1]), "goInsert answer loop")
-	// the error passed to SendLongpollResponse in the answer loop must be sendErr (rpc error when the insert failed)
-	sendsErr := false
-	ast.Inspect(stale[1], func(m ast.Node) bool {
-		if c, ok := m.(*ast.CallExpr); ok && strings.HasSuffix(src(c.Fun), "SendLongpollResponse") && len(c.Args) == 1 && src(c.Args[0]) == "sendErr" {
-			sendsErr = true
+	// what goes on the wire: the argument of SendLongpollResponse in the answer loop (an rpc error replaces the body)
+	longpollArg := func(n ast.Node, what string) string {
+		arg := ""
+		ast.Inspect(n, func(m ast.Node) bool {
+			if c, ok := m.(*ast.CallExpr); ok && strings.HasSuffix(src(c.Fun), "SendLongpollResponse") && len(c.Args) == 1 {
+				if arg != "" && arg != src(c.Args[0]) {
+					die("%s: several different SendLongpollResponse arguments", what)
+				}
+				arg = src(c.Args[0])
+			}
+			return true
+		})
+		if arg == "" {
+			die("%s: no SendLongpollResponse call", what)
 		}
-		return true
-	})
-	if !sendsErr {
-		die("goInsert answer loop does not pass sendErr to SendLongpollResponse")
+		return arg
+	}
+	insertSendsErr := ""
+	switch a := longpollArg(stale[1], "goInsert answer loop"); a {
+	case "sendErr":
+		insertSendsErr = "true"
+	case "nil":
+		insertSendsErr = "false"
+	default:
+		die("goInsert answer loop passes %q to SendLongpollResponse", a)
 	}
 	// the insert whose error decides: sendErr must be assigned from sendToClickhouse(... bodyStorage ...)
 	fromCH := false
@@ -165,6 +180,15 @@ func main() {
 		fullDiscard = fullDiscards[0]
 	} else if len(fullDiscards) > 1 {
 		die("goTicker: several SetDiscard calls in the conveyor-full loop")
+	}
+	fullErr := ""
+	switch a := longpollArg(full[0], "goTicker conveyor-full loop"); a {
+	case "nil":
+		fullErr = "false"
+	case "err":
+		fullErr = "true"
+	default:
+		die("goTicker conveyor-full loop passes %q to SendLongpollResponse", a)
 	}
 	// handleSendSourceBucket3: writeResponse(msg, discard) calls before handleSendSourceBucket is called
 	h3 := funcDecl(fh, "handleSendSourceBucket3")
@@ -247,6 +271,8 @@ func main() {
 	fmt.Fprintf(&sb, "Definition max_history_send_streams : Z := %d.\n", data_model.MaxHistorySendStreams)
 	fmt.Fprintf(&sb, "(* goInsert: c.resp.SetDiscard(…) for the contributors of the inserted batch; ok = (sendErr == nil), sendErr = result of sendToClickhouse(body of all batch buckets) *)\n")
 	fmt.Fprintf(&sb, "Definition gen_insert_discard (ok : bool) : bool := %s.\n", insertDiscard)
+	fmt.Fprintf(&sb, "(* goInsert: the answer loop passes sendErr to SendLongpollResponse: a failed insert is an rpc error on the wire *)\nDefinition gen_insert_sends_err : bool := %s.\n", insertSendsErr)
+	fmt.Fprintf(&sb, "(* goTicker, conveyor full: SendLongpollResponse gets a non-nil error for version 3 contributors *)\nDefinition gen_full_err : bool := %s.\n", fullErr)
 	fmt.Fprintf(&sb, "(* goInsert: contributors of stale historic buckets *)\nDefinition gen_stale_discard (ok : bool) : bool := %s.\n", staleDiscard)
 	fmt.Fprintf(&sb, "(* goTicker: conveyor full *)\nDefinition gen_full_discard (ok : bool) : bool := %s.\n", fullDiscard)
 	fmt.Fprintf(&sb, "(* handleSendSourceBucket3: answers to undecodable requests *)\nDefinition gen_undecodable_discard : list bool := [%s].\n", strings.Join(undec, "; "))
